@@ -16,6 +16,7 @@ import (
 	"net/http/httptest"
 	"os"
 	"path/filepath"
+	"sort"
 	"strings"
 	"sync"
 	"time"
@@ -264,16 +265,28 @@ func main() {
 	templruntime.DefaultBufferSize = 32 // many flushes: more interleaving points inside one render
 	// sequential reference: every job rendered alone, outside the scheduler
 	ref := map[string]outcome{}
+	var seqProblems []string
 	for name, j := range jobs() {
 		ref[name] = renderOne(j)
 		if again := renderOne(j); again != ref[name] {
-			vlib.Fatal("job %s is not deterministic when rendered alone", name)
+			// the second render of the same job, nothing else running, differs from the first: an earlier render leaked into it
+			seqProblems = append(seqProblems, fmt.Sprintf("job %s rendered twice in sequence, nothing else running: first %q err=%q, then %q err=%q", name, ref[name].out, ref[name].err, again.out, again.err))
 		}
 	}
+	sort.Strings(seqProblems)
 	if ref["bigFail"].err != "error" || ref["pageFail"].err != "error" || !strings.Contains(ref["pageA"].out, "alice") {
 		vlib.Fatal("reference renders look wrong: %+v", ref)
 	}
 	if mode == "race" {
+		if len(seqProblems) > 0 {
+			suffix := ""
+			if devModeReady() {
+				suffix = "-dev"
+			}
+			b, _ := json.Marshal(map[string]any{"mismatch": seqProblems[0], "dev_mode": devModeReady()})
+			os.WriteFile(filepath.Join(os.Getenv("VERIF_SCRATCH"), "race"+suffix+".json"), b, 0o644)
+			return
+		}
 		raceMode(ref)
 		return
 	}
@@ -282,6 +295,9 @@ func main() {
 		vlib.Fatal("mode %s but development mode is %v", mode, devModeReady())
 	}
 	run := vlib.Start("C14", "model_checking")
+	for _, p := range seqProblems {
+		run.Violation("not-isolated-sequential", p, map[string]any{"problem": p})
+	}
 	bound := run.Pick(3, 4)
 	scenarios := []scenario{
 		{"2 goroutines x 2 renders (pages, then big)", [][]string{{"pageA", "bigA"}, {"pageB", "bigB"}}},
